@@ -95,6 +95,8 @@ def plan(ctx):
                 jobs.append(((node, "sync", 1, mode, 3, 2.0), 1))
                 jobs.append(((node, "sync", 2, mode, 3, 1.5), 1))
             jobs.append(((node, "future", 1, "burst", 3, 1.5), 1))
+            # the interval given as a string ('1s' goes through convert_interval)
+            jobs.append(((node + "s", "sync", 1, "burst", 3, 1.5), 0))
             # four un-awaited elements: two parked behind each other and a late arrival
             jobs.append(((node, "sync", 1, "burst", 4, 2.5), 1))
     return jobs
